@@ -28,7 +28,7 @@ type Graph struct {
 type Fault struct {
 	Node  int    `json:"node"`
 	Field string `json:"field"`
-	// Kind: "err" plain error; "group" ggql.Errors with N members; "wgroup" the same wrapped with %w; "ext" *ggql.Error with extensions;
+	// Kind: "err" plain error; "group" ggql.Errors with N members; "wgroup" the same wrapped with %w; "ext" *ggql.Error with extensions; "lext" one with a line and column of its own (wrapped when N is odd);
 	// "nth" the Any-list accessor fails at element Index of the list held by (node, field).
 	Kind  string `json:"kind"`
 	N     int    `json:"n,omitempty"`
